@@ -316,6 +316,13 @@ def file_check(b, ctx, st, flagged, w, what):
     # write them (Greek letters, angstrom and degree signs) - put on the harness's own copy of the state
     via_path = (len(b) + len(b.bonds) + len(b.atom_type_labels)) % 3 == 1
     path = os.path.join(worker_dir(), "state.lmpdat")
+    if (len(b) + len(b.bonds) + len(b.atom_type_labels)) % 3 == 2 and len(b.atom_type_labels) >= 1:
+        # another state in three has a type the user left unlabelled (the empty string) - again on the harness's own copy
+        b = clone(b)
+        labels = [str(x) for x in b.atom_type_labels]
+        labels[len(b) % len(labels)] = ""
+        b.atom_type_labels = np.array(labels) if isinstance(b.atom_type_labels, np.ndarray) else labels
+        st.count("states_with_an_unlabelled_type_written_and_read_back")
     f = io.StringIO()
     try:
         if via_path:
@@ -462,6 +469,8 @@ def requirements(stats, tier):
     need = []
     if stats.get("operations_applied") < (3000 if tier == "quick" else 100000):
         need.append("too few operations applied: %d" % stats.get("operations_applied"))
+    if stats.get("states_with_an_unlabelled_type_written_and_read_back") < (200 if tier == "quick" else 10000):
+        need.append("states with an unlabelled type written and read back: %d" % stats.get("states_with_an_unlabelled_type_written_and_read_back"))
     if stats.get("states_saved_to_and_loaded_from_a_path_with_non_ascii_text") < (200 if tier == "quick" else 10000):
         need.append("states saved to and loaded from a path, with non-ASCII labels and comments: %d" % stats.get("states_saved_to_and_loaded_from_a_path_with_non_ascii_text"))
     for k in ("del", "ext", "rep", "copy", "sub", "rpl", "pop"):
